@@ -26,8 +26,8 @@ PLANS = {
     "C08": vm_plan(),
     "C09": vm_plan(quick_scale=5.0),
     "C10": vm_plan(),
-    "C11": vm_plan(quick_scale=3.0),
-    "C12": vm_plan(),
+    "C11": vm_plan(quick_scale=10.0),
+    "C12": vm_plan(quick_scale=8.0),
     "C14": vm_plan(),
 }
 
@@ -35,8 +35,8 @@ import os as _os
 _PINNED = ["--pinned", _os.path.join(_os.path.dirname(_os.path.dirname(_os.path.abspath(__file__))), "pinned", "opcodes.tsv")]
 
 
-def codec_plan():
-    return {"quick": [vh("codec-release", "codec", "release", 1.0, timeout=600, args=_PINNED), vh("codec-dev", "codec", "dev", 0.1, timeout=600, args=_PINNED)],
+def codec_plan(qs=5.0):
+    return {"quick": [vh("codec-release", "codec", "release", qs, timeout=600, args=_PINNED), vh("codec-dev", "codec", "dev", 0.1 * qs, timeout=600, args=_PINNED)],
             "thorough": [vh("codec-release", "codec", "release", 1.0, timeout=3000, args=_PINNED), vh("codec-relchk", "codec", "relchk", 0.2, timeout=3000, args=_PINNED)]}
 
 
@@ -45,13 +45,13 @@ PLANS["C15"] = codec_plan()
 for _t in ("quick", "thorough"):
     PLANS["C14"][_t] = PLANS["C14"][_t] + [vh("codec-release", "codec", "release", 1.0, timeout=3000, args=_PINNED)]
 
-def simple_plan(engine, dev_scale=0.1):
-    return {"quick": [vh(engine + "-release", engine, "release", 1.0, timeout=600), vh(engine + "-dev", engine, "dev", dev_scale, timeout=600)],
+def simple_plan(engine, dev_scale=0.1, qs=1.0):
+    return {"quick": [vh(engine + "-release", engine, "release", qs, timeout=600), vh(engine + "-dev", engine, "dev", dev_scale * qs, timeout=600)],
             "thorough": [vh(engine + "-release", engine, "release", 1.0, timeout=3000), vh(engine + "-relchk", engine, "relchk", 0.2, timeout=3000)]}
 
 
-PLANS["C17"] = simple_plan("formats")
-PLANS["C18"] = simple_plan("formats")
+PLANS["C17"] = simple_plan("formats", qs=4.0)
+PLANS["C18"] = simple_plan("formats", qs=3.0)
 
 def scen_plan(dev_scale=0.1, pool_env=None, quick_scale=1.0):
     env = {"RAYON_NUM_THREADS": "4"}
@@ -63,7 +63,7 @@ def scen_plan(dev_scale=0.1, pool_env=None, quick_scale=1.0):
 for _p in ("C01", "C03", "C04"):
     PLANS[_p] = scen_plan(quick_scale=4.0)
 PLANS["C06"] = {
-    "quick": [vh("total-release", "total", "release", 1.0, timeout=900), vh("total-dev", "total", "dev", 0.2, timeout=900)] + scen_plan()["quick"],
+    "quick": [vh("total-release", "total", "release", 2.0, timeout=900), vh("total-dev", "total", "dev", 0.4, timeout=900)] + scen_plan(quick_scale=2.0)["quick"],
     "thorough": [vh("total-release", "total", "release", 1.0, timeout=3400), vh("total-relchk", "total", "relchk", 0.3, timeout=3400)] + scen_plan()["thorough"],
 }
 PLANS["C02"] = scen_plan(quick_scale=2.5)
@@ -72,7 +72,7 @@ for _t in ("quick", "thorough"):
         _s["shards"] = 4          # each worker drives pools of up to 16 threads itself
 
 PLANS["C16"] = {t: [vh("limits-release", "limits", "release", 1.0, timeout=900), vh("limits-dev", "limits", "dev", 0.1, timeout=900)] + scen_plan()[t] for t in ("quick", "thorough")}
-PLANS["C19"] = simple_plan("sign", 0.1)
+PLANS["C19"] = simple_plan("sign", 0.1, qs=8.0)
 PLANS["C20"] = {
     "quick": [
         {"name": "lock-native", "kind": "lock_native", "profile": "release", "timeout": 600,
